@@ -14,6 +14,7 @@ import (
 
 	"github.com/hedzr/logg/slog"
 	"github.com/hedzr/logg/slog/verifharness/vlib"
+	errorsv3 "gopkg.in/hedzr/errors.v3"
 	"pgregory.net/rapid"
 )
 
@@ -461,10 +462,34 @@ func TestSafety(t *testing.T) {
 				}
 			case 4:
 				ex := rapid.SampledFrom(rePatterns).Draw(t, "regexp")
-				slog.AddKnownPathRegexpMapping(ex, "~re")
+				repl := "~re"
+				if len(regexps) > 1 && rapid.IntRange(0, 2).Draw(t, "sameExpressionAgain") == 0 {
+					// the same expression registered a second time (by another part of the program), with a replacement of
+					// its own: removing one registration leaves the other in force
+					ex = regexps[rapid.IntRange(1, len(regexps)-1).Draw(t, "registeredExpression")]
+					repl = "~r2"
+					v.labels["regexp-registered-twice"] = true
+				}
+				slog.AddKnownPathRegexpMapping(ex, repl)
 				regexps = append(regexps, ex)
-				reRepls = append(reRepls, "~re")
-				hist = append(hist, fmt.Sprintf("AddKnownPathRegexpMapping(%q)", ex))
+				reRepls = append(reRepls, repl)
+				hist = append(hist, fmt.Sprintf("AddKnownPathRegexpMapping(%q,%q)", ex, repl))
+				if repl == "~re" && ex != rePatterns[0] && rapid.IntRange(0, 2).Draw(t, "twiceThenRemovedOnce") == 0 {
+					// two parts of a program register the expression, one of them withdraws its registration
+					slog.AddKnownPathRegexpMapping(ex, "~r2")
+					regexps = append(regexps, ex)
+					reRepls = append(reRepls, "~r2")
+					slog.RemoveKnownPathRegexpMapping(ex)
+					for k := range regexps { // the package removes the FIRST entry with that expression
+						if regexps[k] == ex {
+							regexps = append(regexps[:k], regexps[k+1:]...)
+							reRepls = append(reRepls[:k], reRepls[k+1:]...)
+							break
+						}
+					}
+					hist = append(hist, fmt.Sprintf("AddKnownPathRegexpMapping(%q,\"~r2\")", ex), fmt.Sprintf("RemoveKnownPathRegexpMapping(%q)", ex))
+					v.labels["regexp-registered-twice"] = true
+				}
 			default:
 				if len(regexps) > 0 {
 					j := rapid.IntRange(0, len(regexps)-1).Draw(t, "removere")
@@ -680,6 +705,41 @@ func TestCallerField(t *testing.T) {
 				sort.Strings(want)
 				vlib.Discrep(t, "C18/caller-field", "C18 after [%s]: the record's caller file is %q; Safety policy allows %q (flag on=%v) for %q", h, file, want, flagPath, thisFile)
 			}
+			// the same source file reported elsewhere: by the exported Source helper, and as the origin of an error value
+			// that carries a stack (err.trace.file in JSON, the file/line line of the error dump under go test) - the
+			// policy is one and the same
+			if ok {
+				var src slog.Source
+				if f := src.Extract(here()).File; f != file {
+					vlib.Discrep(t, "C18/caller-field", "C18 after [%s]: Source.Extract(pc).File = %q for a frame in %q, the caller field of a record from the same file says %q", h, f, thisFile, file)
+				}
+				log.Reset()
+				lg.LogAttrs(context.Background(), slog.ErrorLevel, "error origin probe", "err", errorsv3.New("boom"))
+				ep := log.Writes()[0].Payload
+				origin := file
+				switch format {
+				case "json":
+					if o, err := vlib.DecodeJSONRecord(ep); err == nil {
+						if e, _ := o.Vals["err"].(*vlib.JObj); e != nil {
+							if tr, _ := e.Vals["trace"].(*vlib.JObj); tr != nil {
+								origin, _ = tr.Vals["file"].(string)
+							}
+						}
+					}
+				default:
+					txt := vlib.SimulateSGR(ep).Text
+					if k := strings.Index(txt, "file/line: "); k >= 0 {
+						line := strings.SplitN(txt[k+len("file/line: "):], "\n", 2)[0]
+						if i := strings.LastIndexByte(line, ':'); i > 0 {
+							origin = line[:i]
+						}
+					}
+				}
+				if origin != file {
+					vlib.Discrep(t, "C18/caller-field", "C18 after [%s]: a record reports the origin of its error value as %q; the caller field of a record from the same file says %q: %q", h, origin, file, ep)
+				}
+				vlib.Label("error-origin-and-Source.Extract")
+			}
 			// and Safety itself must agree with one of the allowed forms
 			if flagPath && applicable > 0 && !reMatched {
 				if s := slog.Safety(thisFile); !set[s] {
@@ -713,4 +773,10 @@ func FuzzSafety(f *testing.F) {
 		checkPath(t, path, []mapping{{homeDir, "~"}, {cwdDir, "."}}, nil, true, false, "initial tables, regexp flag off", v)
 		vlib.Case("FuzzSafety", "")
 	})
+}
+
+func here() uintptr {
+	var pcs [1]uintptr
+	runtime.Callers(1, pcs[:])
+	return pcs[0]
 }
